@@ -11,7 +11,8 @@ EXPLANATION = (
     "(a) the query algebra is immutable at evaluation time: in evaluate.py, evalutils.py, aggregates.py, update.py and the "
     "evaluation functions of operators.py no statement stores into, deletes from, or calls a mutating method on an object "
     "rooted in a CompValue/Expr-typed value or an alias of one of its attributes - so a prepared query answers every time "
-    "like a freshly parsed one; the single sanctioned write is Expr.eval's self.ctx, which must be cleared in a finally; "
+    "like a freshly parsed one; the single sanctioned write is the solution that Expr.eval (itself, a method it calls through self, or a context manager "
+    "of self it enters) puts on the node, which a finally covering the write must reset to None; "
     "(b) triple-pattern reordering builds a new list (sorted), never sorts the algebra's list in place; (c) the read-only "
     "aggregate evaluates a Path predicate once against the aggregate itself, not per member graph; (d) re-binding detection "
     "in QueryContext/Bindings is by key membership, not by the truthiness of the bound value (join operand order would "
@@ -23,26 +24,42 @@ COPYING_CALLS = {"list", "tuple", "sorted", "set", "frozenset", "dict", "reverse
 ALG = ("rdflib.plugins.sparql.parserutils.CompValue",)
 
 
-def run(repo: Repo, rep: Report) -> None:
-    rep.extra["explanation"] = EXPLANATION
+def _alg_type_test(repo: Repo):
     typed = repo.typed
-    mods = [repo.mod("rdflib.plugins.sparql." + m) for m in ("evaluate", "evalutils", "aggregates", "update", "operators")]
 
     def is_alg_type(modname: str, e: ast.AST) -> bool:
         tf = typed.type_of(modname, e)
         return tf is not None and any(typed.is_subclass(i, ALG[0]) for i in tf.items)
 
+    return is_alg_type
+
+
+def run(repo: Repo, rep: Report) -> None:
+    """one rule, one layer: a rule that loses its anchor (on the tree or on one view of it) does not take its neighbours with it"""
+    rep.extra["explanation"] = EXPLANATION
+    _layer(rep, rule_a, repo)
+    _layer(rep, lambda r, p: reordering_rule(r, p, _alg_type_test(r)), repo)
+    _layer(rep, rule_c, repo)
+    _layer(rep, lambda r, p: translation_cache_rule(r, p, "C15.e-translation-not-cached", ("translateQuery", "translateUpdate")), repo)
+    _layer(rep, rule_f, repo)
+    _layer(rep, rule_d, repo)
+
+
+def rule_a(repo: Repo, rep: Report) -> None:
+    typed = repo.typed
+    is_alg_type = _alg_type_test(repo)
+    mods = [repo.mod("rdflib.plugins.sparql." + m) for m in ("evaluate", "evalutils", "aggregates", "update", "operators")]
+
     # ------------------------------------------------------------------ (a)
     rep.rule("C15.a-algebra-immutable-at-eval",
              "no subscript/attribute store, del, or mutating method call has a receiver rooted in a CompValue/Expr-typed name "
-             "(or in a local alias of an attribute of one) inside the evaluator modules", floor=150)
+             "(or in a local alias of an attribute of one) inside the evaluator modules; Expr.eval - with the methods it calls through self and the "
+             "context managers of self it enters - takes back, in a `finally`, every attribute it sets on the node, and changes the node in no other way", floor=150)
     n_reads = 0
     for mod in mods:
         for q, f in mod.functions():
             if "." in q and isinstance(mod.defs.get(q.rsplit(".", 1)[0]), ast.FunctionDef):
                 continue
-            if mod.name.endswith(".update") and q in ("evalUpdate",):
-                pass
             rep.analysed("%s:%s" % (mod.rel, q))
             # algebra-typed roots: parameters/locals whose static type is CompValue/Expr
             aliases: set[str] = set()
@@ -92,8 +109,6 @@ def run(repo: Repo, rep: Report) -> None:
                        "%s mutates the query algebra during evaluation: a prepared query evaluated again (or on another graph) no longer answers like a freshly parsed one" % what, node=site)
     # every read of an algebra attribute is an instance that holds
     rep.info["algebra_attribute_reads"] = n_reads
-    for i in range(0):
-        pass
     # register the reads as one aggregate obligation per module to keep the evidence readable
     for mod in mods:
         cnt = 0
@@ -121,49 +136,128 @@ def run(repo: Repo, rep: Report) -> None:
     rep.ob("C15.a-algebra-immutable-at-eval", repo.mod("rdflib.plugins.sparql.operators"), "simplify", "operators.simplify is used only by algebra.py", not bad_users and bool(users),
            "translation-time only (%d uses)" % len(users) if not bad_users and users else "operators.simplify (which rewrites expression nodes in place) is used from %s" % sorted(set(bad_users)), node=None)
 
-    # Expr.eval: ctx set then cleared in finally
+    # Expr.eval (the public entry point of expression evaluation; the one place that may put evaluation state on a node of the
+    # algebra): whatever it - or a method it calls through self, or a context manager of self it enters - sets on the node is reset
+    # to None in a `finally` that covers the write, and nothing else of the node is changed.  Which attribute carries the
+    # state, and whether the try/finally is written out in eval or lives in a helper / a @contextmanager, is not the rule's business.
+    from vlib import h_c15 as H
+
     pu = repo.mod("rdflib.plugins.sparql.parserutils")
     f = pu.func("Expr.eval")
     rep.analysed("rdflib/plugins/sparql/parserutils.py:Expr.eval")
-    sets = [n for n in own_nodes(f) if isinstance(n, (ast.Assign, ast.AnnAssign)) and norm(n.targets[0] if isinstance(n, ast.Assign) else n.target) == "self.ctx"]
-    tr = [n for n in own_nodes(f) if isinstance(n, ast.Try)]
-    ok = bool(tr) and any(isinstance(s, ast.Assign) and norm(s.targets[0]) == "self.ctx" and isinstance(s.value, ast.Constant) and s.value.value is None for s in tr[0].finalbody)
-    others = [n for n in own_nodes(f) if isinstance(n, (ast.Assign, ast.AnnAssign, ast.AugAssign)) and n not in sets
-              and norm(n.targets[0] if isinstance(n, ast.Assign) else n.target).startswith("self.")]
-    rep.ob("C15.a-algebra-immutable-at-eval", pu, "Expr.eval", "self.ctx = ctx ... finally: self.ctx = None", ok and not others,
-           "evaluation state is cleared on every exit" if ok and not others else "Expr.eval leaves evaluation state on the expression node (%s)" % ([norm(o) for o in others] or "ctx not cleared in finally"), node=f)
+    state = H.SelfState(pu, "Expr")
+    left = state.left_behind(f)
+    for fn in state.visited:
+        rep.analysed("rdflib/plugins/sparql/parserutils.py:%s" % pu.qual_of(fn))
+    if left:
+        detail = "Expr.eval leaves evaluation state on the expression node (%s)" % "; ".join(
+            "%s in %s is not taken back by a `finally` that resets %s" % (norm(w)[:50], pu.qual_of(fn), "self." + a) if a is not None else
+            "%s in %s changes the node" % (norm(w)[:50], pu.qual_of(fn)) for a, w, fn in left[:3])
+    elif state.n_writes == 0:
+        detail = "Expr.eval leaves evaluation state on the expression node (no store of the solution on the node is found in Expr.eval or what it calls through self: where do the node's parameters get their values from?)"
+    else:
+        detail = "evaluation state is cleared on every exit"
+    rep.ob("C15.a-algebra-immutable-at-eval", pu, "Expr.eval", "what Expr.eval sets on the node is reset in a finally", not left and state.n_writes > 0, detail,
+           node=left[0][1] if left else f)
 
-    # ------------------------------------------------------------------ (b)
-    reordering_rule(repo, rep, is_alg_type)
 
-    # ------------------------------------------------------------------ (c)
-    rep.rule("C15.c-aggregate-path-evaluated-once",
-             "ReadOnlyGraphAggregate.triples evaluates a Path predicate against the aggregate itself (p.eval(self, ...)) under an "
-             "isinstance(p, Path) test and outside the loop over member graphs; no loop re-executes it with clobbered pattern variables", floor=1)
+def rule_c(repo: Repo, rep: Report) -> None:
+    """(c) the read-only aggregate evaluates a path against itself"""
+    from vlib import h_c15 as H
+
+    typed = repo.typed
+    RULE = "C15.c-aggregate-path-evaluated-once"
+    rep.rule(RULE,
+             "in ReadOnlyGraphAggregate.triples, whenever the predicate is a Path (every way through the method on which an isinstance(<predicate>, Path) test "
+             "holds - as the body of `if isinstance(..)`, the else of `if not isinstance(..)`, after a guard clause, an arm of a conditional expression), the path is "
+             "evaluated against the aggregate itself (<predicate>.eval(self, ...)) outside any loop over the member graphs, and the pattern is not handed to the "
+             "member graphs one by one; no loop re-executes it with clobbered pattern variables", floor=1)
     gm = repo.mod("rdflib.graph")
     f = gm.func("ReadOnlyGraphAggregate.triples")
     rep.analysed("rdflib/graph.py:ReadOnlyGraphAggregate.triples")
-    ok = False
-    for n in own_nodes(f):
-        if isinstance(n, ast.If) and "isinstance" in norm(n.test) and "Path" in norm(n.test):
-            for c in [x for s in n.body for x in ast.walk(s)]:
-                if isinstance(c, ast.Call) and isinstance(c.func, ast.Attribute) and c.func.attr == "eval" and c.args and norm(c.args[0]) == "self":
-                    inside_member_loop = any(isinstance(p, ast.For) and "graphs" in norm(p.iter) for p in gm.parents(c))
-                    if not inside_member_loop:
-                        ok = True
-    rep.ob("C15.c-aggregate-path-evaluated-once", gm, "ReadOnlyGraphAggregate.triples", "if isinstance(p, Path): ... p.eval(self, s, o)", ok,
+    me = H.params_of(f)[0]
+    PATH = "rdflib.paths.Path"
+
+    def is_path_class(e: ast.AST) -> bool:
+        if isinstance(e, ast.Tuple):
+            return bool(e.elts) and any(is_path_class(x) for x in e.elts)
+        if isinstance(e, (ast.Name, ast.Attribute)):
+            ref = typed.ref(gm.name, e)
+            if ref:
+                return ref == PATH
+            return norm(e).split(".")[-1] == "Path"
+        return False
+
+    def path_test(e: ast.AST) -> bool:
+        return isinstance(e, ast.Call) and isinstance(e.func, ast.Name) and e.func.id == "isinstance" and len(e.args) == 2 and is_path_class(e.args[1])
+
+    tested = {norm(e.args[0]) for e in own_nodes(f) if path_test(e)}  # type: ignore[attr-defined]
+
+    def members(e: ast.AST) -> bool:
+        """e is the collection of member graphs (or a part / copy of it)"""
+        tf = typed.type_of(gm.name, e)
+        items = H.collection_item_classes(tf.text) if tf is not None else []
+        if items and all(typed.is_subclass(i, GRAPH_CLS) for i in items):
+            return True
+        return "graphs" in norm(e)
+
+    def member_loop_vars(node: ast.AST) -> tuple[bool, set[str]]:
+        """(node lies in a loop / comprehension over the member graphs, the names such loops bind)"""
+        inside, names = False, set()
+        child = node
+        for p in gm.parents(node):
+            if isinstance(p, (ast.For, ast.AsyncFor)) and members(p.iter) and child is not p.iter:
+                inside = True
+                names |= H.target_names(p.target)
+            if isinstance(p, (ast.ListComp, ast.SetComp, ast.GeneratorExp, ast.DictComp)):
+                for gen in p.generators:
+                    # (the iterable itself is evaluated before the loop over it starts)
+                    if members(gen.iter) and not any(x is node for x in ast.walk(gen.iter)):
+                        inside = True
+                        names |= H.target_names(gen.target)
+            if p is f:
+                break
+            child = p
+        return inside, names
+
+    def assume_path(e: ast.AST, depth: int = 0) -> bool | None:
+        """the truth of a condition when the predicate is a Path: the test itself, or a flag that holds its value (a local bound once, to
+        an expression over names that are bound once)"""
+        if path_test(e):
+            return True
+        if isinstance(e, ast.Name) and depth < 3 and e.id not in H.all_params(f):
+            bs = H.bindings_of(f, e.id)
+            if len(bs) == 1 and bs[0][0] == "is" and all(len(H.bindings_of(f, x.id)) <= 1 for x in ast.walk(bs[0][1]) if isinstance(x, ast.Name)):
+                return H.tri_eval(bs[0][1], lambda x: assume_path(x, depth + 1))
+        return None
+
+    live = H.executed_assuming(f, assume_path) if tested else []
+    evals, per_member, fanout = [], [], []
+    for c in live:
+        if not (isinstance(c, ast.Call) and isinstance(c.func, ast.Attribute)):
+            continue
+        inside, names = member_loop_vars(c)
+        if c.func.attr == "eval" and norm(c.func.value) in tested and c.args and not isinstance(c.args[0], ast.Starred):
+            if norm(c.args[0]) == me and not inside:
+                evals.append(c)
+            else:
+                per_member.append(c)
+        elif c.func.attr in TRIPLE_API and inside and isinstance(c.func.value, ast.Name) and c.func.value.id in names:
+            fanout.append(c)
+    ok = bool(evals) and not per_member and not fanout
+    rep.ob(RULE, gm, "ReadOnlyGraphAggregate.triples", "if isinstance(p, Path): ... p.eval(self, s, o)", ok,
            "path evaluated over the union of the member graphs" if ok else
-           "a Path predicate is not evaluated once against the aggregate (it is forwarded to each member graph separately or evaluated per member): paths crossing member graphs lose solutions", node=f)
-    before = len(rep.findings)
-    rule_tmp = "C15.c-aggregate-path-evaluated-once"
-    loops.clobber_scan(rep, rule_tmp, gm, f, "ReadOnlyGraphAggregate.triples")
+           "a Path predicate is not evaluated once against the aggregate (it is forwarded to each member graph separately or evaluated per member): paths crossing member graphs lose solutions"
+           + (" [%s]" % norm((per_member + fanout)[0])[:60] if per_member or fanout else ""), node=(per_member + fanout + [f])[0])
+    loops.clobber_scan(rep, RULE, gm, f, "ReadOnlyGraphAggregate.triples")
     for cls in ("ReadOnlyGraphAggregate",):
         for m, fn in gm.methods(cls).items():
             if m != "triples":
-                loops.clobber_scan(rep, rule_tmp, gm, fn, "%s.%s" % (cls, m))
+                loops.clobber_scan(rep, RULE, gm, fn, "%s.%s" % (cls, m))
 
-    translation_cache_rule(repo, rep, "C15.e-translation-not-cached", ("translateQuery", "translateUpdate"))
 
+def rule_f(repo: Repo, rep: Report) -> None:
+    typed = repo.typed
     # (f) path objects keep no evaluation state
     rep.rule("C15.f-paths-are-stateless",
              "no eval() of a Path class (nor a helper nested in it) assigns an attribute of the path object: a path is a value that may be evaluated "
@@ -193,6 +287,8 @@ def run(repo: Repo, rep: Report) -> None:
         rep.ob("C15.f-paths-are-stateless", pth, cname + ".eval", "eval() writes no attribute of self", not writes,
                "stateless" if not writes else "eval() stores state on the path object (%s): a second evaluation, or one on another/changed graph, is answered from it" % norm(writes[0])[:70], node=writes[0] if writes else f)
 
+
+def rule_d(repo: Repo, rep: Report) -> None:
     # ------------------------------------------------------------------ (d)
     rep.rule("C15.d-rebinding-by-membership",
              "QueryContext / Bindings / FrozenBindings decide whether a variable is already bound by key membership or identity "
@@ -850,10 +946,10 @@ def run(repo: Repo, rep: Report) -> None:  # noqa: F811
         "(k) a fan-out over a collection of member graphs yields a shared triple once (seen-set created before the loop) or names the member graph; "
         "(l) variables the translator makes up have names outside the grammar's VARNAME language."
     )
-    rule_i(repo, rep)
-    rule_j(repo, rep)
-    rule_k(repo, rep)
-    rule_l(repo, rep)
+    _layer(rep, rule_i, repo)
+    _layer(rep, rule_j, repo)
+    _layer(rep, rule_k, repo)
+    _layer(rep, rule_l, repo)
 
 
 
@@ -1057,9 +1153,9 @@ def run(repo: Repo, rep: Report) -> None:  # noqa: F811
         "(n) no Forward() element of the SPARQL grammar can end with itself (a list written as a right recursion); "
         "(o) a context derived from another one (QueryContext.clone) is assigned every parameter-independent attribute of __init__ from the original, lazily filled slots through their filler."
     )
-    rule_m(repo, rep)
-    rule_n(repo, rep)
-    rule_o(repo, rep)
+    _layer(rep, rule_m, repo)
+    _layer(rep, rule_n, repo)
+    _layer(rep, rule_o, repo)
 
 
 _run_before_borrow = run
